@@ -14,11 +14,14 @@ EXPLANATION = ("S4: finalize, finalize_xof, count, finalize_non_root, position (
                "adapters (Write, update_reader, mmap) are covered by I2/I3. Lazy merging: no root compression is reachable "
                "from update_with_join; merge order (right popped first, left second; stack[n-2],stack[n-1]; left half then "
                "right half of a subtree pair with counters c and c + chunks/2); count() = (chunk_counter - offset) * "
-               "CHUNK_LEN + chunk_state.count(). Equality of the digest across different splits (the cv-stack popcount "
+               "CHUNK_LEN + chunk_state.count(). The incremental path compresses through the same sites as the one-shot path, so the flag / "
+               "counter / block-length discipline at every compression site (Fs, Fh, Fl, F5, F6), the scratch sizes (K3M1), the wide-subtree "
+               "split (W1, G3) and the zero padding of the block buffer (ZP: buf_len = 0 only together with buf = [0; 64]) are decided here too. "
+               "Equality of the digest across different splits (the cv-stack popcount "
                "invariant over runtime lengths) is NOT decided.")
 TRUSTED = ["rustc nightly type checker / borrow checker / MIR", "mirfacts serialisation", "call graph with resolved callees (generic trait calls linked to every local impl)"]
 ASSUMPTIONS = ["no unsafe code outside the kernel modules writes through a shared reference (scanned for the query closure only)"]
-TECHNIQUE = "call-graph gate dominance + type-structure purity + value-flow/dominance rules over MIR"
+TECHNIQUE = "call-graph gate dominance + type-structure purity + value-flow/dominance rules + known-bits flag dataflow at compression sites over MIR"
 DESIGN_REF = "DESIGN.md section 2 (S3, S4, S5, F1) and section 4 (C02)"
 
 
@@ -31,6 +34,13 @@ def run(ctx):
     ctx.run_rule("MO", r_state.rule_merge_order, cfgs)
     ctx.run_rule("S5", r_hazmat.rule_S5, cfgs)
     ctx.run_rule("Ff", r_flags.rule_F_fields, cfgs)
+    # the incremental path compresses through the same sites as the one-shot path: flag/counter discipline at every
+    # compression site, scratch sizes and the subtree split of update's wide hashing, zero padding of the block buffer
+    import r_consts
+    import r_globals
+    for nm, fn in (("Fs", r_flags.rule_F_sinks), ("Fh", r_flags.rule_F_hash_many), ("Fl", r_flags.rule_F_literals), ("F5", r_flags.rule_F5),
+                   ("F6", r_flags.rule_F6), ("K3M1", r_consts.rule_K3_M1), ("W1", r_globals.rule_W1), ("G3", r_globals.rule_G3), ("ZP", r_state.rule_ZP)):
+        ctx.run_rule(nm, fn, cfgs)
     std = [c for c in cfgs if c not in ("portable1", "asm-nostd", "neon1")]
     ctx.run_rule("LZ", r_state.rule_LZ, std)
     ctx.run_rule("I2", r_io.rule_I2, std)
